@@ -157,8 +157,12 @@ def check(prop, tier, seed):
     kinds = {}
     for m in tlc_tagged(res, "MISMATCH"):
         e = events[m["l"] - 1]
-        nm += 1
         kinds[m["kind"]] = kinds.get(m["kind"], 0) + 1
+        if m["kind"] in ("SizeModel", "MetaModel"):
+            # sizes are consistent but not the design's: the property does not fix the numbers (model drift)
+            run.extra["model_drift_lines"] = run.extra.get("model_drift_lines", 0) + 1
+            continue
+        nm += 1
         k, v = e["klen"], e["vlen"]
         n = -(-v // payload(k))
         # the failing input class: the call, where the value ends relative to a chunk boundary, the digits of the last chunk index
